@@ -73,6 +73,14 @@ pub fn result_json(scn: &Scenario) -> Value {
             Res::Abort(m) => json!({"res": "abort", "text": m}),
         })
         .collect();
+    if std::env::var("VERIF_DEBUG").is_ok() {
+        let out2 = run(scn, &RunOpts::default());
+        for c in &out2.calls {
+            eprintln!("{} snap={:?}", c.res.short(), c.snap);
+        }
+        let kinds: String = out2.log.iter().map(|e| e.kind_byte() as char).collect();
+        eprintln!("events: {kinds}");
+    }
     json!({"calls": calls, "events": out.log.len(), "valid_queries": out.log.iter().filter(|e| matches!(e, crate::sim::Ev::Valid(..))).count()})
 }
 
@@ -93,6 +101,7 @@ pub fn mirror_scenario(prop: &str, seed: u64, index: u64) -> Option<Scenario> {
         min_frac: 0.05,
         goal_sampler: Some(GoalSampler::Fixed),
         query_budget: 2e4,
+        canonical_only: true,
         ..Default::default()
     };
     let mut scn = gen::base(&mut rng, prop, seed, index, &o);
